@@ -365,6 +365,10 @@ func (eng *Engine) checkProperty(prop string, timeoutMs int, all bool, verbose b
 	sort.Strings(keys)
 	todo = append(todo, keys...)
 	checkLocks := prop == "C18"
+	tExec := time.Now()
+	defer func() {
+		_ = tExec
+	}()
 	for len(todo) > 0 {
 		k := todo[0]
 		todo = todo[1:]
@@ -398,6 +402,9 @@ func (eng *Engine) checkProperty(prop string, timeoutMs int, all bool, verbose b
 		}
 		rep.All = append(rep.All, res.Obls...)
 	}
+	if verbose {
+		fmt.Fprintf(os.Stderr, "symbolic execution: %.1fs\n", time.Since(tExec).Seconds())
+	}
 	lem, _ := eng.lemmaObligations(prop)
 	if len(lem.Obls) > 0 || len(lem.SpecErrors) > 0 {
 		rep.Funcs = append(rep.Funcs, lem)
@@ -406,7 +413,20 @@ func (eng *Engine) checkProperty(prop string, timeoutMs int, all bool, verbose b
 			rep.EngineErrors = append(rep.EngineErrors, "lemma: "+s)
 		}
 	}
+	tSolve := time.Now()
 	eng.solveAll(rep.All, timeoutMs, all)
+	if verbose {
+		fmt.Fprintf(os.Stderr, "solve phase: %.1fs for %d obligations\n", time.Since(tSolve).Seconds(), len(rep.All))
+		type st struct {
+			n  int
+			ms int64
+		}
+		slow := append([]*Obligation(nil), rep.All...)
+		sort.Slice(slow, func(i, j int) bool { return slow[i].TimeMs > slow[j].TimeMs })
+		for i := 0; i < 15 && i < len(slow); i++ {
+			fmt.Fprintf(os.Stderr, "  %6dms %-8s %-7s %s %v\n", slow[i].TimeMs, slow[i].Status, slow[i].Solver, slow[i].Name, slow[i].Answers)
+		}
+	}
 	rep.Infeasible = postVacuity(rep.All)
 	known := loadKnownFindings()
 	led := loadLedger(prop)
